@@ -269,6 +269,31 @@ def r01_2(chk):
         if t.startswith('self.A=') or t.startswith('self.ABD='):
             i = cfg.node_of_stmt(st)
             chk.ob('R01.2', cfg.must_pass(i, {lid}), LAMINATE, fname, 'sliced after the accumulation: ' + t.split('=')[0])
+    # exclusive writers: the integrals are whatever the ply loop accumulated - nothing else writes into them
+    # (a store through a slice of the accumulator, self.B_general[:] = 0., also writes the views A/B/D/ABD later take)
+    accs = ('self.A_general', 'self.B_general', 'self.D_general')
+    inside = {id(n) for n in ast.walk(lp)}
+    others = []
+    for n in ast.walk(fn):
+        tgts = []
+        if isinstance(n, ast.Assign):
+            tgts = n.targets
+        elif isinstance(n, ast.AugAssign):
+            tgts = [n.target]
+        for t in tgts:
+            base = t
+            while isinstance(base, ast.Subscript):
+                base = base.value
+            if norm(base) in accs:
+                plain_init = isinstance(n, ast.Assign) and t is base and norm(n.value) == 'np.zeros([5,5],dtype=DOUBLE)'
+                if not plain_init and id(n) not in inside:
+                    others.append((n.lineno, norm(n)[:60]))
+        if isinstance(n, ast.Call) and isinstance(n.func, ast.Attribute) and norm(n.func.value) in accs and n.func.attr in ('fill', 'put', 'itemset', 'resize', 'sort', 'clip'):
+            others.append((n.lineno, norm(n)[:60]))
+    chk.ob('R01.2', not others, LAMINATE, fname, 'A/B/D accumulators are written only by their zero initialisation and by the ply loop',
+           line=others[0][0] if others else 0, got=others,
+           detail='' if not others else 'a write outside the ply summation changes the integrals for the inputs its condition selects',
+           sample='calc_constitutive_matrix: A_general, B_general, D_general written by np.zeros(...) and the ply loop only')
 
 
 def r01_3(chk):
